@@ -376,6 +376,13 @@ impl Prop for C04 {
         let mut g = G::new(&data);
         v.push(gen_case(&mut g, (1 << 24) + 9 + 1, Assembly::TextRow { cells: 1 }));
         v.push(gen_case(&mut g, (1 << 24) + 1000, Assembly::BinRow { cells: 1 }));
+        if tier == Tier::Thorough {
+            // "for all logical message sizes": one row of more than 2^30 bytes (65 packets) in either
+            // protocol - beyond every limit a server might be tempted to hard-code (several GiB of
+            // memory for this one case, hence thorough only)
+            v.push(gen_case(&mut g, (1 << 30) + 12_345, Assembly::BinRow { cells: 1 }));
+            v.push(gen_case(&mut g, (1 << 30) + 12_345, Assembly::TextRow { cells: 1 }));
+        }
         v
     }
     fn exec(&self, case: &Case) -> Exec {
